@@ -61,6 +61,18 @@ fn progress_filtertime_havoc(f: &mut InnerFilter, time: Time, _wander: f64, _con
     f.filter_time = time;
 }
 
+/// As `progress_filtertime_havoc`, but exact in the two components the real propagation leaves unchanged for a
+/// finite state (`update * state` = [offset + dt * freq, freq, delay]): only the offset is arbitrary.
+/// Valid for finite pre-states only (with an infinite entry the real product yields NaN in other rows).
+fn progress_filtertime_offset_only(f: &mut InnerFilter, time: Time, _wander: f64, _config: &KalmanConfiguration) {
+    debug_assert!(time >= f.filter_time);
+    if time < f.filter_time {
+        return;
+    }
+    f.state = Vector::new_vector([any_f64_non_nan(), f.state.ventry(1), f.state.ventry(2)]);
+    f.filter_time = time;
+}
+
 fn any_config() -> KalmanConfiguration {
     let mut c = KalmanConfiguration::default();
     c.max_freq_offset = any_finite();
@@ -161,11 +173,11 @@ fn c13_change_frequency_any_config() { change_frequency_case(any_config()) }
 // @timeout 3600
 // @mem 14
 // @functions KalmanFilter::steer, KalmanFilter::step, KalmanFilter::change_frequency, Duration::from_seconds, BaseFilter::absorb_offset_steer
-// @bounds estimator offset any non-NaN f64 with |offset| <= 10^9 s, frequency / delay any non-NaN f64, step threshold 1 ms, steer time 2 s, deadzone any value in [0, 4], bound / max steer symbolic; failing clock
-// @assume as c13_change_frequency
+// @bounds estimator offset any f64 with |offset| <= 10^9 s, frequency any finite f64, delay any f64 with |delay| <= 10^9 s, step threshold 1 ms, steer time 2 s, deadzone any value in [0, 4], bound / max steer symbolic; failing clock
+// @assume InnerFilter::progress_filtertime replaced by progress_filtertime_offset_only: new offset arbitrary (non-NaN), frequency and delay unchanged (exact for a finite state), filter time advanced; otherwise as c13_change_frequency
 #[kani::proof]
 #[kani::unwind(5)]
-#[kani::stub(InnerFilter::progress_filtertime, progress_filtertime_havoc)]
+#[kani::stub(InnerFilter::progress_filtertime, progress_filtertime_offset_only)]
 fn c13_steer_and_step() {
     let mut config = any_config();
     // any non-negative deadzone: the deadzone shrinks the slew, it must never shrink a step
@@ -182,6 +194,8 @@ fn c13_steer_and_step() {
     kani::assume(error.abs() <= 1.0e9);
     // the mean delay estimate is reported back as a Duration: keep it representable (finite estimator state)
     kani::assume(inner.state.ventry(2).abs() <= 1.0e9);
+    // finite estimator state (the refined propagation stub is exact in frequency and delay only then)
+    kani::assume(inner.state.ventry(1).is_finite());
     let mut f = mk(config, Some(inner), Some(cur));
     let mut clock = CmdClock::any(ret);
     let _u = f.steer(&mut clock);
